@@ -101,7 +101,12 @@ type Stream struct {
 
 // Opaque external objects
 type BuilderObj struct{ Len Term }           // strings.Builder: only its length is modelled
-type BufferObj struct{ Content Term; Len Term } // bytes.Buffer: content id (opaque), length
+type BufferObj struct {
+	Content Term
+	Base    Term // offset of byte 0 within Content
+	Len     Term
+	Fresh   bool // never written
+}
 type OnceObj struct{ Done Term }
 
 func showVal(v Val) string {
